@@ -11,7 +11,8 @@ cp /repo/Lib/core/public/module/cmn.h /repo/Lib/core/public/module/ctx.h $wt/Lib
 trap 'git -C /repo worktree remove --force $wt >/dev/null 2>&1' EXIT
 INC="-I$wt/Lib/core -I$wt/Lib/core/public -I$wt/Lib/core/fs -I$wt/Lib/core/poll -I$wt/Lib/utils -I$wt/Lib/structs -I$wt/Lib/structs/public -I$wt/Lib/mem -I$wt/Lib/mem/public -I$wt/Lib/thpool -I$wt/Lib/thpool/public"
 SRCS="$wt/Lib/core/ctx.c $wt/Lib/core/mod.c $wt/Lib/core/ps.c $wt/Lib/core/src.c $wt/Lib/core/evts.c $wt/Lib/core/main.c $wt/Lib/core/fs/fs_noop.c $wt/Lib/core/poll/epoll.c $wt/Lib/core/poll/cmn_linux.c $wt/Lib/structs/map.c $wt/Lib/structs/bst.c $wt/Lib/structs/queue.c $wt/Lib/structs/stack.c $wt/Lib/structs/list.c $wt/Lib/mem/mem.c $wt/Lib/utils/mem.c $wt/Lib/utils/utils.c $wt/Lib/utils/log.c $wt/Lib/thpool/thpool.c"
-build_demo() { gcc -g -O1 -D_GNU_SOURCE -w $INC $demo $SRCS -o $1 -lpthread -ldl 2>$wt/demo_build.log; }
+PUBINC="-I$wt/Lib/core/public -I$wt/Lib/structs/public -I$wt/Lib/mem/public -I$wt/Lib/thpool/public"
+build_demo() { gcc -g -O1 -D_GNU_SOURCE -w $PUBINC -c $demo -o $wt/demo.o 2>$wt/demo_build.log && gcc -g -O1 -D_GNU_SOURCE -w $INC $wt/demo.o $SRCS -o $1 -lpthread -ldl 2>>$wt/demo_build.log; }
 echo "== seed $id property $prop base $(git -C /repo rev-parse --short HEAD)"
 build_demo $wt/demo_clean || { echo "DEMO-BUILD-FAILED (pristine)"; tail -5 $wt/demo_build.log; exit 3; }
 ( cd $wt && timeout 120 ./demo_clean >/dev/null 2>&1 ); rc_clean=$?
